@@ -380,7 +380,7 @@ def oracle_T(c, otoks, rt):
         v = unhx(h)
         if not (v != v or v >= 0.0):
             bad.append(("gaussian:variance-negative", "per-class variance %r is neither NaN nor >= 0 "
-                        "(hypothesis of C08_gaussian_confidence_01_partial)" % v))
+                        "(contradicts C08_welford_variance_nan_or_nonneg)" % v))
     if R["l"] and R["l"] != R["q"]:
         bad.append(("lambdify:%s:differs-from-direct-construction" % combo,
                     "lambdify'ed model answers %s, directly constructed model %s" % (R["l"], R["q"])))
